@@ -18,8 +18,9 @@ KERNELS = [
     K("src_done_stop", _S, _DONE + r".*?if \(const auto step_ok = [^;]*;\s*(.*?)\)\s*\{",
       [], [("converged", "bool"), ("step_ok", "bool")], "c02", _P),
     K("src_done_status", _S, _DONE + r".*?state\.status\((.*?)\);",
-      [(r"solver_status::converged", "1"), (r"solver_status::failed", "2"), (r"solver_status::max_iters", "0")],
-      [("converged", "bool")], "c02", _P),
+      [(r"solver_status::converged", "1"), (r"solver_status::failed", "2"), (r"solver_status::max_iters", "0"),
+       (r"state\.valid\(\)", "valid")],
+      [("converged", "bool"), ("valid", "bool")], "c02", _P),
     # the value returned on the two branches (first `return` = stop branch, second = go-on branch)
     K("src_done_ret_stop", _S, _DONE + r".*?state\.status\([^;]*;.*?return (.*?);", [], [], "c02", _P),
     K("src_done_ret_go", _S, _DONE + r".*?else\s*\{.*?return (.*?);", [], [], "c02", _P),
